@@ -30,7 +30,7 @@ ISOLATE = False  # interrupt objects are plain Python objects without process-wi
 TIERS = {
     # ~1.4 ms per history (measured): 150000 runs = 13 s of 16 idle cores (+ determinism sample); the budget only
     # cuts on a loaded machine (measured with load average 30: 3100 runs/s)
-    "quick": {"runs": 150000, "budget_s": 30, "timeout_s": 40, "chunk": 256, "det_sample": 256, "det_runs": 2000},
+    "quick": {"runs": 150000, "budget_s": 90, "timeout_s": 40, "chunk": 256, "det_sample": 256, "det_runs": 2000},
     "thorough": {"runs": 3000000, "budget_s": 600, "timeout_s": 120, "chunk": 512, "det_sample": 512, "det_runs": 5000},
 }
 RULE = ("seeded plans: (interrupt class and parameters, way of construction [constructor / parse_interrupt from number, "
